@@ -10,7 +10,7 @@ from ..effects import Effects, roots, callee
 from ..flow import Flow
 from .. import preds
 from ..preds import Scope, canon, refine, absorb, cmp_atom, fmt
-from .common import (facts_for, classes, full_classes, strip_copy, write_rhs, is_this_mem, lit_value,
+from .common import (facts_for, classes, full_classes, strip_copy, write_rhs, is_this_mem, lit_value, inline_bool_predicates,
                      optimizer_classes, optimizer_spline_order)
 
 BC_FIELDS = [("start_velocity", 3), ("end_velocity", 3), ("start_acceleration", 5), ("end_acceleration", 5),
@@ -388,7 +388,8 @@ def check_ppoly(chk, F, E):
         rec = F.record(cls)
         f = F.func1(cls, "initializeInternal")
         chk.saw(f)
-        sc = Scope(f)
+        fi = inline_bool_predicates(F, f)      # a boolean helper holding the rejection tests is read as those tests
+        sc = Scope(fi)
         targs = rec.get("targs") or []
         order = targs[1] if len(targs) > 1 else -1
         bools = {x["name"] for x in rec["fields"] if x["ty"].get("c") == "bool" and not x["mutable"]}
@@ -413,7 +414,7 @@ def check_ppoly(chk, F, E):
 
         # private helpers of the same class (e.g. a common 'reset to uninitialised' routine) are followed in place
         fl = Flow(F, transfer, branch=branch, enter_call=lambda g, e: g.get("cls") == cls and g.get("body") is not None and (e.get("obj") is None or e["obj"].get("k") == "this"))
-        out, exits = fl.run(f, ((), frozenset()))
+        out, exits = fl.run(fi, ((), frozenset()))
         ends = [(s, None) for s in out] + exits
         rej, acc = [], []
         init_field = None
